@@ -4,6 +4,7 @@ import math
 from fractions import Fraction
 
 from pyvc import alg
+from pyvc.contract import Unlinked
 
 from .common import F, G, H, MISS, S, U, Case, Env, basic_shape_clauses, case_of, pval, series_grid
 
@@ -116,7 +117,8 @@ class Attenuated(Case):
                     med = [s for s in path.stats if s.name == "median"]
                     step = alg.idiv(med[0].value.val, 10**9) if med else None
                     if step is None:
-                        return {"flag_by_spread": False}
+                        u = Unlinked("the run computed no median step: the clause is phrased over it")
+                        return {"flag_by_spread": u}
                     # the sampling step of the statement: the median step must be a step of the axis
                     minp = alg.trunc(alg.rdiv(pval(e.min_period), alg.to_real(step)))
                 else:
@@ -131,7 +133,8 @@ class Attenuated(Case):
             if symbolic:
                 g = path.ctx.ghost.get("rolling", []) if hasattr(path.ctx, "ghost") else []
                 if len(g) != 1:
-                    return {"flag_by_spread": False, "statistic_arguments": False}
+                    u = Unlinked("the run made %d rolling-window evaluations: the clause is phrased over exactly one" % len(g))
+                    return {"flag_by_spread": u, "statistic_arguments": u}
                 g = g[0]
                 sigma = g["wval"](alg.lift(k))
                 cnt = g["wcount"](alg.lift(k))
@@ -154,7 +157,10 @@ class Attenuated(Case):
         else:
             if symbolic:
                 st = [s for s in path.stats if s.name in ("std", "ptp")]
-                if len(st) != 1 or st[0].name != ("std" if std else "ptp"):
+                if len(st) != 1:
+                    u = Unlinked("the run computed %d spread statistics: the clause is phrased over exactly one" % len(st))
+                    return {"flag_by_spread": u, "statistic_arguments": u}
+                if st[0].name != ("std" if std else "ptp"):
                     return {"flag_by_spread": False, "statistic_arguments": False}
                 v = st[0].value
                 if isinstance(v, type(res.value)) or not hasattr(v, "val"):
